@@ -4,7 +4,7 @@
 # A scratch copy of the sources is made under /tmp and removed afterwards; dependency build output is kept
 # under /verif/.cache/mir-target-* (one target dir per dump flavour so the three run concurrently).
 set -euo pipefail
-OUT=$1; mkdir -p "$OUT"
+OUT=$(realpath -m "$1"); mkdir -p "$OUT"
 REPO=${VERIF_REPO:-/repo}
 S=$(mktemp -d /tmp/verif-mir.XXXXXX)
 trap 'rm -rf "$S"' EXIT
